@@ -114,7 +114,9 @@ type Sim struct {
 	GCNum       int // out of FaultDen per scheduler step (and per sequential op where the harness asks)
 	Passthrough bool
 	pools       []*poolState
-	objKeys     []unsafe.Pointer
+	objKeys     []uintptr
+	objKeep     []unsafe.Pointer
+	WeakObjIDs  bool // object numbers do not keep objects alive (C10: a caller may drop a header; numbers may then repeat, they are only labels there)
 	objVals     []int32
 	objCount    int
 	realGCs     int
@@ -274,33 +276,48 @@ func NoSync(f func()) {
 //go:norace
 func (s *Sim) ObjID(p unsafe.Pointer) int {
 	if len(s.objKeys) == 0 {
-		s.objKeys = make([]unsafe.Pointer, 256)
+		s.objKeys = make([]uintptr, 256)
 		s.objVals = make([]int32, 256)
 	}
+	key := uintptr(p)
 	mask := uintptr(len(s.objKeys) - 1)
-	h := (uintptr(p) >> 3) * 0x9e3779b97f4a7c15
+	h := (key >> 3) * 0x9e3779b97f4a7c15
 	i := (h >> 17) & mask
-	for s.objKeys[i] != nil {
-		if s.objKeys[i] == p {
+	for s.objKeys[i] != 0 {
+		if s.objKeys[i] == key {
 			return int(s.objVals[i])
 		}
 		i = (i + 1) & mask
 	}
 	id := s.objCount
 	s.objCount++
-	s.objKeys[i] = p
+	s.objKeys[i] = key
 	s.objVals[i] = int32(id)
+	if !s.WeakObjIDs {
+		// keep the object alive, so that its address is never reused for
+		// another object and numbers stay unique
+		n := len(s.objKeep)
+		if n == cap(s.objKeep) {
+			bigger := make([]unsafe.Pointer, n, 2*n+64)
+			for k := 0; k < n; k++ {
+				bigger[k] = s.objKeep[k]
+			}
+			s.objKeep = bigger
+		}
+		s.objKeep = s.objKeep[:n+1]
+		s.objKeep[n] = p
+	}
 	if 2*s.objCount > len(s.objKeys) {
 		oldK, oldV := s.objKeys, s.objVals
-		s.objKeys = make([]unsafe.Pointer, 2*len(oldK))
+		s.objKeys = make([]uintptr, 2*len(oldK))
 		s.objVals = make([]int32, 2*len(oldK))
 		mask = uintptr(len(s.objKeys) - 1)
 		for k := 0; k < len(oldK); k++ {
-			if oldK[k] == nil {
+			if oldK[k] == 0 {
 				continue
 			}
-			j := (((uintptr(oldK[k]) >> 3) * 0x9e3779b97f4a7c15) >> 17) & mask
-			for s.objKeys[j] != nil {
+			j := (((oldK[k]) >> 3) * 0x9e3779b97f4a7c15 >> 17) & mask
+			for s.objKeys[j] != 0 {
 				j = (j + 1) & mask
 			}
 			s.objKeys[j] = oldK[k]
@@ -969,8 +986,8 @@ func (s *Sim) watchdog(stop chan struct{}) {
 		p := s.progress.Load()
 		if p == lastSeen {
 			stuck++
-			if stuck >= 12 {
-				fmt.Fprintln(os.Stderr, "INFRA: task stuck (no scheduler progress for 60 s)")
+			if stuck >= 24 {
+				fmt.Fprintln(os.Stderr, "INFRA: task stuck (no scheduler progress for 120 s)")
 				os.Exit(2)
 			}
 		} else {
